@@ -44,6 +44,7 @@ static void footer(std::ostream &ostream)
 {
     ostream << std::endl;
     ostream << "#endif" << std::endl;
+    ostream << noexecstack_note;
 }
 
 static bool ascon(enum Mode mode)
